@@ -351,6 +351,10 @@ func (p *VipnodePool) connect(ctx context.Context, nodeID string, req ConnectReq
 
 // Peer returns a list of enodes who are ready for the node to connect.
 func (p *VipnodePool) Peer(ctx context.Context, sig string, nodeID string, nonce int64, req PeerRequest) (*PeerResponse, error) {
+	if err := p.verify(sig, "vipnode_peer", nodeID, nonce, req); err != nil {
+		return nil, err
+	}
+
 	// TODO: Should we use protocol capability (eth, les, pip) instead of Kind?
 	// It's hard to get self-reported protocol capability versions though (les/2 vs just les).
 	hosts, err := p.requestHosts(ctx, nodeID, req.Num, req.Kind)
